@@ -89,7 +89,8 @@ def run_property(prop, tier, report):
                    "repaired meets every invariant with nothing excused")
     cov["samples"] = [{"h": [25, 26], "meaning": "nested instance {n:{x}} then {n:{x,y}} on one track"},
                       {"h": [32, 30], "meaning": "types@0.2.0 + user, then types@0.2.1 with one more export"}]
-    report.assumptions.append("component-, module- and value-kinded requirements and worlds are not in the universe (KF18: "
-                              "component/module imports cannot be encoded); resources appear as exports of interfaces only; "
+    report.assumptions.append("component- and module-kinded requirements are aggregated at API level only (KF18: such imports "
+                              "cannot be encoded) and, where two differ, checked against contract-or-Impl-layer (KF28); value-kinded "
+                              "requirements are not in the universe; resources appear as exports of interfaces only; "
                               "import order is not compared (the property excludes it); in histories of shape "
                               "`owner-import-name` (KF24) the name of the owner's import is excused, its key and kind are not")
